@@ -88,6 +88,25 @@ TW2c  == WC("TWConst", P2, QU(2, 1, 1))                           \* constant 2 
 TW2e  == WC("TWConst", QU(2, 1, 1), QI(2))                        \* exponent 2 + ulp
 PW2c  == WC("PWConst", P2, QU(2, 1, -1))
 THalf == Tn(<<3>>, "f64", WC("TWConst", P2, H(1, 2)))
+\* objects that differ ONLY in attributes equality does not compare (SetSem: x), and heterogeneous product spaces
+D4a == WithX(D4, "labels:a")
+D4b == WithX(D4, "labels:b")
+D23 == Dis(P23, Tn(<<2, 3>>, "f64", WC("TWConst", P2, Q14)), "factory")
+Rn3f == Tn(<<3>>, "f32", TW1)
+Cn3s == Tn(<<3>>, "c64", TW1)
+Cn3d == Tn(<<3>>, "c128", TW1)
+D4f == Dis(P4, Tn(<<4>>, "f32", WC("TWConst", P2, Q14)), "factory")
+UExtra == <<
+  D4a, D4b, WithX(D23, "labels:a"), WithX(Dis(P3non, Rn3, ""), "labels:b"),
+  WithX(PS(PW1, <<Rn3, Rn3>>), "field"), WithX(PS(PW2, <<Rn3, Rn3>>), "field"),
+  WithX(PS(PW1, <<Cn3d, Cn3d>>), "field"), PS(PW1, <<D4a, D4b>>),
+  \* components with different dtypes / kinds; nested with a homogeneous first component
+  PS(PW1, <<Rn3f, Rn3>>), PS(PW1, <<Rn3, Rn3f>>), PS(PW1, <<Cn3s, Cn3d>>), PS(PW1, <<Rn3f, Rn3, Rn3f>>),
+  PS(PW1, <<D4f, D4>>), PS(PW1, <<Rn4, D4>>),
+  PS(PW1, <<PS(PW1, <<Rn3, Rn3>>), Rn3f>>), PS(PW1, <<PS(PW1, <<Rn3f, Rn3f>>), PS(PW1, <<Rn3, Rn3>>)>>),
+  PS(PW1, <<Tn(<<3>>, "i64", TW1), Rn3>>), PS(PW2, <<Rn3f, Rn3>>)
+>>
+
 UNear == <<
   G3i, G3i2, G3e, G4i, I01u, Intv(<<QU(0, 1, 1)>>, <<QI(1)>>),
   Part(I01, G3i), Part(I01, G3e), Part(I01u, G3), Part(I01, G4i),
@@ -191,7 +210,7 @@ UBig == <<
             Dis(P23, Tn(<<2, 3>>, "f64", WC("TWConst", P2, Q14)), "factory")>>)
 >>
 Big == IOEnv.ST_BIG = "1"
-U == IF Big THEN UBase \o UNear \o UBig ELSE UBase \o UNear
+U == IF Big THEN UBase \o UNear \o UExtra \o UBig ELSE UBase \o UNear \o UExtra
 
 (* ------------------------------ instances ------------------------------- *)
 RECURSIVE Inst(_, _)
@@ -258,7 +277,11 @@ BogusDistinctHash == oy = 0 \/ X.oid = Y.oid \/ ImplHashKey(X.d) # ImplHashKey(Y
 Export ==
   oy # 0 \/
   Serialize(ToJson([oid |-> X.oid, k |-> X.k, copy |-> X.copy, d |-> X.d,
-                    cases |-> IF IsSpace(X.d) /\ X.copy = 1 /\ ~HasUlp(X.d) THEN DerivedCases(X.d) ELSE {}]) \o "\n", IOEnv.OUT_FILE,
+                    cases |-> IF IsSpace(X.d) /\ X.copy = 1 /\ ~HasUlp(X.d)
+                                THEN {[c EXCEPT !.form = c.form] @@ [hasdesc |-> DerivedDescDefined(X.d, c),
+                                       desc |-> IF DerivedDescDefined(X.d, c) THEN DerivedDesc(X.d, c) ELSE Cls0("none")] :
+                                      c \in DerivedCases(X.d)}
+                                ELSE {}]) \o "\n", IOEnv.OUT_FILE,
             [format |-> "TXT", charset |-> "UTF-8",
              openOptions |-> <<"WRITE", "CREATE", "APPEND">>]).exitValue = 0
 \* the export run does not expand pairs
